@@ -142,6 +142,10 @@ func ReadFile(r io.Reader) (File, []string, error) {
 		nextCommentLines = []string{}
 		nextRecordOpCode = 0
 	}
+	// Next also stops at a tokenizer or reader error; do not mistake that for the end of the input
+	if err := tr.Err(); err != nil {
+		return f, warnings, err
+	}
 	return f, warnings, nil
 }
 
